@@ -184,7 +184,8 @@ def genFaceCorners (r : Raw) : Raw :=
   else r
 
 def genCellCorners (r : Raw) : Raw :=
-  if r.ccElem.length = 0 ∨ r.ccAdj.length = 0 then
+  if r.ccElem.length = 0 ∨ r.ccAdj.length = 0 ∨ r.ccElem.length ≠ (r.cells.map List.length).sum
+      ∨ r.ccAdj.length ≠ (r.cells.map List.length).sum then
     if r.ccAdj.length = 0 ∧ r.ccElem.length > 0 then
       -- "build only adjacency" as written in the code (it extends `_elem`); not reachable from prepare's own output
       { r with ccAdj := [], ccElem := r.ccElem ++ owners r.cells }
@@ -214,12 +215,11 @@ def cellFaceIds (keys : List (List Nat)) : List (List Nat) → Except String (Li
       | .ok l => .ok (idsOf keys fs :: l)
       | .error e => .error e
 
+/-- cell-face records are derived data: always rebuilt (repaired code) -/
 def genCellFaces (r : Raw) : Except String Raw :=
-  if r.cfAdj.length = 0 ∨ r.cfElem.length = 0 then
-    match cellFaceIds (r.faces.map keyF) r.cells with
-    | .ok ids => .ok { r with cfElem := ids.flatten, cfAdj := owners ids }
-    | .error e => .error e
-  else .ok r
+  match cellFaceIds (r.faces.map keyF) r.cells with
+  | .ok ids => .ok { r with cfElem := ids.flatten, cfAdj := owners ids }
+  | .error e => .error e
 
 /-! ### prepare -/
 
